@@ -232,8 +232,14 @@ def run(ctx: Ctx) -> int:
         ex_h[i] = ex_h[i] + [("RO", 0)]
     rnd = []
     for i in range(50 if ctx.quick else 1500):
-        nt = rng.choice([1, 1, 2, 3])
+        nt = rng.choice([1, 1, 2, 3, 3])
         rnd.append(gridlib.with_dumps(random_history(rng, rng.randrange(5, 61), nt), nt))
+    # tables whose row count sits on / next to the 256-row tile size, saved and reopened
+    for h in ([("N", 256, 2), ("W", 0, 255, 1, 5), ("W", 0, 0, 0, 6), ("RO", 0)],
+              [("N", 255, 1), ("AR", 0, 1, None, 7), ("W", 0, 3, 0, 8), ("RO", 0)],
+              [("N", 257, 1), ("DR", 0, 1, 0), ("W", 0, 255, 0, 9), ("RO", 0)],
+              [("N", 2, 2), ("W", 0, 511, 1, 4), ("W", 0, 256, 0, 3), ("RO", 0), ("DR", 0, 256, 0), ("RO", 0)]):
+        rnd.append(h)
     ctx.dist("exhaustive_histories", len(ex_h))
     ctx.dist("random_histories", len(rnd))
     ctx.dist("ops_total", sum(len(h) for h in ex_h + rnd))
